@@ -206,8 +206,11 @@ theorem strict_run_eq (w : Strict) (ops : List Op) :
   | cons op ops ih =>
     simp only [Strict.run, List.foldl_cons] at *
     rw [ih]
-    cases op <;> cases hw : w.headerWritten <;>
-      simp [Strict.step, hw, wroteStatus, firstStatus, written, hdrStep, isInfo]
+    cases op with
+    | writeHeader n =>
+      cases hw : w.headerWritten <;> cases hi : isInfo n <;>
+        simp [Strict.step, hw, hi, wroteStatus, firstStatus, written, hdrStep]
+    | _ => cases hw : w.headerWritten <;> simp [Strict.step, hw, wroteStatus, firstStatus, written, hdrStep]
 
 /-! ### direct run: closed form of status and body (valid codes, no panic) -/
 
@@ -273,7 +276,7 @@ theorem informational_cons (s : Bool) (op : Op) (ops : List Op) (h : information
     (s && opInfo op) = false ∧ informational s ops = false := by
   cases s <;> simp_all [informational]
 
-/-- outside the exclusion class F-C14-2 the transport does not matter for the status the handler fixed -/
+/-- for a handler without informational codes the transport does not matter for the status it fixed -/
 theorem firstStatus_noinfo (s b : Bool) (ops : List Op) (h : informational s ops = false) :
     firstStatus s b ops = firstStatus false b ops := by
   induction ops with
@@ -307,43 +310,29 @@ theorem firstStatus_valid (s b : Bool) (ops : List Op) (hv : ValidCodes ops) (n 
       · simp [firstStatus] at h; exact ih hv' h
       · simp [firstStatus] at h; exact h ▸ validCode_200
 
-/-- the recorded status is one of the handler's WriteHeader codes (or the 200 of a first Write) -/
-theorem wroteStatus_mem (ops : List Op) (n : Nat) (h : wroteStatus ops = some n) :
-    n = 200 ∨ Op.writeHeader n ∈ ops := by
+/-- the recorded status is never an informational code -/
+theorem wroteStatus_notInfo (ops : List Op) (n : Nat) (h : wroteStatus ops = some n) : isInfo n = false := by
   unfold wroteStatus at h
   induction ops with
   | nil => simp [firstStatus] at h
   | cons op ops ih =>
     cases op with
-    | writeHeader m => simp [firstStatus] at h; right; simp [h]
-    | write bs => simp [firstStatus] at h; left; exact h.symm
-    | setHdr k v => simp [firstStatus] at h; rcases ih h with h1 | h1 <;> simp [h1]
-    | delHdr k => simp [firstStatus] at h; rcases ih h with h1 | h1 <;> simp [h1]
-    | panic => simp [firstStatus] at h; rcases ih h with h1 | h1 <;> simp [h1]
-    | flush => simp [firstStatus] at h; rcases ih h with h1 | h1 <;> simp [h1]
-
-theorem informational_mem (s : Bool) (ops : List Op) (op : Op) (hi : informational s ops = false) (hm : op ∈ ops) :
-    (s && opInfo op) = false := by
-  induction ops with
-  | nil => simp at hm
-  | cons o ops ih =>
-    obtain ⟨h1, h2⟩ := informational_cons s o ops hi
-    rcases List.mem_cons.mp hm with h | h
-    · subst h; exact h1
-    · exact ih h2 h
-
-/-- outside F-C14-2 the recorded status is not informational for the transport -/
-theorem wroteStatus_notInfo (s : Bool) (ops : List Op) (n : Nat) (hi : informational s ops = false)
-    (h : wroteStatus ops = some n) : (s && isInfo n) = false := by
-  rcases wroteStatus_mem ops n h with h1 | h1
-  · subst h1; simp [isInfo_200]
-  · exact informational_mem s ops _ hi h1
+    | writeHeader m =>
+      simp only [firstStatus, Bool.true_and] at h
+      cases hi : isInfo m with
+      | true => simp [hi] at h; exact ih h
+      | false => simp [hi] at h; exact h ▸ hi
+    | write bs => simp [firstStatus] at h; exact h ▸ isInfo_200
+    | setHdr k v => simp [firstStatus] at h; exact ih h
+    | delHdr k => simp [firstStatus] at h; exact ih h
+    | panic => simp [firstStatus] at h; exact ih h
+    | flush => simp [firstStatus] at h; exact ih h
 
 /-- a handler that fixed no status wrote no byte -/
 theorem written_of_noStatus (ops : List Op) (h : firstStatus false false ops = none) : written ops = [] := by
   induction ops with
   | nil => rfl
-  | cons op ops ih => cases op <;> simp [firstStatus, isInfo] at h <;> simp [written, ih h]
+  | cons op ops ih => cases op <;> simp [firstStatus] at h <;> simp [written, ih h]
 
 /-! ### warn wrapper: refinement of the raw writer -/
 
@@ -351,17 +340,14 @@ theorem written_of_noStatus (ops : List Op) (h : firstStatus false false ops = n
 def WInv (w : Warn) : Prop :=
   w.headerWritten = true → (w.client.status.isSome = true ∨ w.client.panicked = true)
 
-theorem warn_step (w : Warn) (op : Op) (h : WInv w)
-    (hi : ∀ n, op = .writeHeader n → (w.client.server && isInfo n) = false) :
-    (w.step op).client = direct w.client op ∧ WInv (w.step op) ∧ (w.step op).client.server = w.client.server := by
+theorem warn_step (w : Warn) (op : Op) (h : WInv w) :
+    (w.step op).client = direct w.client op ∧ WInv (w.step op) := by
   rcases w with ⟨hwr, st, buf, ⟨csv, cs, ci, cb, ch, csent, cf, cp⟩⟩
   unfold WInv at *
   cases op with
   | setHdr k v => cases cp <;> simp_all [Warn.step, direct, Client.setHdr]
   | delHdr k => cases cp <;> simp_all [Warn.step, direct, Client.delHdr]
   | writeHeader n =>
-    have hi' := hi n rfl
-    simp only at hi'
     cases hv : validCode n <;> cases hwr <;> cases cp <;> cases cs <;> cases csv <;> cases hin : isInfo n <;>
       simp_all [Warn.step, Warn.writeHeader, direct, Client.writeHeader]
   | write bs =>
@@ -372,18 +358,13 @@ theorem warn_step (w : Warn) (op : Op) (h : WInv w)
       simp_all [Warn.step, direct, Client.flush, Client.writeHeader, validCode_200, isInfo_200]
   | panic => cases hwr <;> simp_all [Warn.step, direct, Client.abort]
 
-theorem warn_run (w : Warn) (ops : List Op) (h : WInv w) (hi : informational w.client.server ops = false) :
+theorem warn_run (w : Warn) (ops : List Op) (h : WInv w) :
     (Warn.run w ops).client = runDirect w.client ops ∧ WInv (Warn.run w ops) := by
   induction ops generalizing w with
   | nil => exact ⟨rfl, h⟩
   | cons op ops ih =>
-    obtain ⟨hi1, hrest⟩ := informational_cons _ op ops hi
-    have hop : ∀ n, op = .writeHeader n → (w.client.server && isInfo n) = false := by
-      intro n hn
-      subst hn
-      exact hi1
-    obtain ⟨h1, h2, h0⟩ := warn_step w op h hop
-    obtain ⟨h3, h4⟩ := ih (w.step op) h2 (by rw [h0]; exact hrest)
+    obtain ⟨h1, h2⟩ := warn_step w op h
+    obtain ⟨h3, h4⟩ := ih (w.step op) h2
     simp only [Warn.run, runDirect, List.foldl_cons] at *
     rw [h3, h1]
     exact ⟨rfl, h4⟩
@@ -399,8 +380,12 @@ theorem warn_run_record (w : Warn) (ops : List Op) :
     obtain ⟨a1, a2, a3⟩ := ih (w.step op)
     simp only [Warn.run, List.foldl_cons] at *
     rw [a1, a2, a3]
-    cases op <;> cases hw : w.headerWritten <;>
-      simp [Warn.step, Warn.writeHeader, hw, wroteStatus, firstStatus, written, isInfo]
+    cases op with
+    | writeHeader n =>
+      cases hw : w.headerWritten <;> cases hi : isInfo n <;>
+        simp [Warn.step, Warn.writeHeader, hw, hi, wroteStatus, firstStatus, written]
+    | _ => cases hw : w.headerWritten <;>
+        simp [Warn.step, Warn.writeHeader, hw, wroteStatus, firstStatus, written, isInfo_200]
 
 /-- the header map (and the panic flag) of a header-only run depends only on the header map and panic flag it
 starts from -/
